@@ -48,7 +48,9 @@ class Errs:
 
     def __init__(self):
         self._v = {}
-        for rel in ("tskit/core.h", "tskit/tables.h", "tskit/trees.h", "tskit/genotypes.h",
+        for rel in ("tskit/core.h", "tskit/tables.h", "tskit/trees.h", "tskit/genotypes.h", "tskit/stats.h",
+                    "tskit/convert.h", "tskit/haplotype_matching.h", "tskit/trees.c", "tskit/tables.c",
+                    "tskit/genotypes.c",
                     "subprojects/kastore/kastore.h"):
             p = os.path.join(cfront.CDIR, rel)
             try:
